@@ -426,6 +426,27 @@ class SStr(str, metaclass=_Meta):
             raise ValueError("substring not found")
         return r
 
+    def rfind(s, sub, *a):
+        if (not s_is_sym(s) and not s_is_sym(sub)):
+            return str.rfind(s, sub, *a)
+        if a or len(sub) == 0:
+            pin_str(s, "str.rfind(args)")
+            pin_str(sub, "str.rfind(args)")
+            return str.rfind(sraw(s), sraw(sub), *a)
+        cs, conc, sp, sr = cterms(s), sraw(s), cterms(sub), sraw(sub)
+        m = len(sp)
+        for i in range(len(cs) - m, -1, -1):
+            cond = z3.And([cs[i + k] == sp[k] for k in range(m)])
+            if branch(cond, conc[i:i + m] == sr):
+                return i
+        return -1
+
+    def rindex(s, sub, *a):
+        r = s.rfind(sub, *a)
+        if r < 0:
+            raise ValueError("substring not found")
+        return r
+
     def count(s, sub, *a):
         if (not s_is_sym(s) and not s_is_sym(sub)) or a:
             pin_str(s, "str.count(args)")
